@@ -216,4 +216,8 @@ pub fn run_seq(run: &mut Run) {
 
 pub fn run(run: &mut Run) {
     run_seq(run);
+    let ex = run.coverage.get("exhaustive").and_then(|v| v.as_bool()).unwrap_or(false);
+    super::c02_ilv::run(run);
+    let capped = run.coverage.get("ilv_configs_capped").and_then(|v| v.as_u64()).unwrap_or(0);
+    run.cov("exhaustive", serde_json::json!(ex && capped == 0));
 }
